@@ -411,6 +411,26 @@ fn random_case(u: &mut Choices, sz: Size) -> CaseResult {
             }
         }
     });
+    // a fifth of the documents hold a list of 11-130 entries (multi-digit indices in the pointers)
+    // with rules that fail on, or do not resolve below, single entries of it
+    if u.chance(1, 5) {
+        let n = *u.pick(&[11usize, 13, 21, 32, 101, 130]);
+        let items: Vec<V> = (0..n).map(|i| if i % 3 == 2 { V::Map(vec![("k".into(), V::Int(i as i64))]) } else { V::Map(vec![("k".into(), V::Int(i as i64)), ("j".into(), V::s("x"))]) }).collect();
+        if let V::Map(m) = &mut doc {
+            m.retain(|(k, _)| k != "biglist");
+            m.push(("biglist".into(), V::List(items)));
+        }
+        let big = |parts: Vec<Part>| Query { head: Head::Key("biglist".into()), parts };
+        let mut c1 = cl_bin(big(vec![Part::AllIdx, Part::Key("k".into())]), BinOp::Lt, false, Lit::V(V::Int(10)));
+        c1.msg = Some("big1".into());
+        let mut c2 = cl_un(big(vec![Part::AllIdx, Part::Key("j".into())]), UnOp::Exists, false);
+        c2.msg = Some("big2".into());
+        let mut c3 = cl_bin(big(vec![Part::Idx((n - 1) as i32), Part::Key("k".into())]), BinOp::Eq, false, Lit::V(V::Int(-1)));
+        c3.msg = Some("big3".into());
+        let mut c4 = cl_un(big(vec![Part::Idx(12), Part::Key("nosuch".into()), Part::Key("deeper".into())]), UnOp::Exists, false);
+        c4.msg = Some("big4".into());
+        file.rules.push(Rule { name: "zbig".into(), when: None, lets: vec![], body: vec![vec![Item::Clause(c1)], vec![Item::Clause(c2)], vec![Item::Clause(c3)], vec![Item::Clause(c4)]] });
+    }
     let style = *u.pick(&[Style::YamlBlock, Style::JsonPretty, Style::YamlFlow, Style::YamlBlock, Style::JsonCompact]);
     let w = write_doc(&doc, style, u, true);
     let rules = print_file(&file);
